@@ -222,7 +222,7 @@ Target(p, e) ==
                      ELSE IF e.host = "" /\ e.port = 0 THEN loc
                      ELSE GopherURL(e, ServerName, 70)               \* NB: default port 70, not ServerPort
              url  == IF p = "W" /\ StartsWith(url0, "/") THEN WapTop \o url0 ELSE url0
-         IN [form |-> "url", mark |-> IF e.type = "7" THEN "search" ELSE "link",
+         IN [form |-> "url", mark |-> IF e.type = "7" /\ p # "M" THEN "search" ELSE "link",   \* Gemini marks nothing
              sel |-> "", host |-> "", port |-> 0, href |-> url]
 
 \* does a reference start with a URI scheme (something ":" before any "/", "?" or "#")?
